@@ -28,8 +28,14 @@ RULE = ("random nested values to depth 4 (quick) / 5 (thorough) built from {inst
         "{tuple, list, tuple subclass} x value_serializer in {None, wrap-everything, wrap-leaves}; "
         "a fixed set of hand-written instances is crossed with EVERY configuration; a malformed "
         "stream puts attrs instances into set members / dict keys (both sides must raise TypeError "
-        "or agree); round-trip cases run C(**asdict(x)); the real result is converted back into the "
-        "model's value language with exact classes and compared in Coq with the code-shaped model "
+        "or agree); a fault stream buries one poisoned spot (a leaf the value_serializer rejects, an "
+        "instance field the filter rejects, a set/frozenset of instances, an instance inside a key) under "
+        "1..depth-1 random containers (list, tuple, tuple subclass, namedtuple, set, frozenset, dict value, "
+        "key, member of a key tuple, field of a nested instance) with faulty callables raising one of "
+        "{TypeError, a TypeError subclass, ValueError, KeyError, a custom Exception}; faulty filters / "
+        "serializers are also mixed into the other streams; round-trip cases run C(**asdict(x)); the real "
+        "outcome - the result converted back into the model's value language with exact classes, or the "
+        "exact class of the exception that came out - is compared in Coq with the code-shaped model "
         "and with the reference specification; distinct = distinct (value, configuration); "
         "non-trivial = the instance contains a nested instance or collection")
 EXTRA_TRUSTED = [
@@ -117,6 +123,21 @@ class MyTuple(tuple):
 
 class MyDict(dict):
     pass
+
+
+class Boom(Exception):
+    pass
+
+
+class SubTE(TypeError):
+    pass
+
+
+# exception classes the faulty callables raise -> model's [exc]
+EXCS = {"TypeError": TypeError, "ValueError": ValueError, "KeyError": KeyError, "Boom": Boom, "SubTE": SubTE}
+EXC_COQ = {"TypeError": "ETypeError", "ValueError": "(EUser 0)", "KeyError": "(EUser 1)", "Boom": "(EUser 2)",
+           "SubTE": "(EUser 3)"}
+EXC_NAME = {v: k for k, v in EXCS.items()}
 
 
 class W:
@@ -281,9 +302,23 @@ ALL_NAMES = sorted({n for fs in FIELDS for n in fs}) + ["nope"]
 # filters and serializers (JSON description -> real callable + Gallina)
 
 def mk_filter(fj):
-    """fj: None | ["inc"|"exc", [type names], [names], [[cls, field]...]] | ["pred", [[name, type name]...], positive]"""
+    """fj: None | ["inc"|"exc", [type names], [names], [[cls, field]...]] | ["pred", [[name, type name]...], positive]
+    | ["raise", [[name, type name]...], exception name, <rest filter>]"""
     if fj is None:
         return None, "FNo"
+    if fj[0] == "raise":
+        tbl = {(n, TYPE_BY_NAME[t]) for n, t in fj[1]}
+        exc = EXCS[fj[2]]
+        rest, rest_t = mk_filter(fj[3])
+
+        def faulty(a, v, tbl=tbl, exc=exc, rest=rest):
+            if (a.name, type(v)) in tbl:
+                raise exc("filter rejects %s" % a.name)
+            return True if rest is None else rest(a, v)
+
+        term = "(FRaise %s %s %s)" % (lst("(%s, %s)" % (q(n), TAG_OF[TYPE_BY_NAME[t]]) for n, t in fj[1]),
+                                      EXC_COQ[fj[2]], rest_t)
+        return faulty, term
     if fj[0] in ("inc", "exc"):
         types = [TYPE_BY_NAME[n] for n in fj[1]]
         names = list(fj[2])
@@ -309,8 +344,20 @@ def _is_leaf(v):
 
 
 def mk_ser(sj):
+    """sj: None | "all" | "leaf" | ["fail", type name, exception name, <base>]"""
     if sj is None:
         return None, "SNo"
+    if isinstance(sj, list):
+        t = TYPE_BY_NAME[sj[1]]
+        exc = EXCS[sj[2]]
+        base, base_t = mk_ser(sj[3])
+
+        def faulty(inst, a, v, t=t, exc=exc, base=base):
+            if type(v) is t:
+                raise exc("cannot serialize a %s" % t.__name__)
+            return v if base is None else base(inst, a, v)
+
+        return faulty, "(SFail %s %s %s)" % (TAG_OF[t], EXC_COQ[sj[2]], base_t)
     if sj == "all":
         return (lambda inst, a, v: W(inst, a, v)), "SAll"
     return (lambda inst, a, v: W(inst, a, v) if _is_leaf(v) else v), "SLeaf"
@@ -373,10 +420,10 @@ def real_call(inst, cfg):
         else:
             raise ValueError(fn)
         return "ok", r
-    except TypeError:
-        return "TypeError", None
-    except Exception as e:  # any other exception class is outside the model: forced mismatch
-        return "other:" + type(e).__name__, None
+    except Exception as e:
+        if type(e) in EXC_NAME:
+            return EXC_NAME[type(e)], None
+        return "other:" + type(e).__name__, None   # a class outside the model: forced mismatch
 
 
 def _observe_runtime(inst, cfg, status, r, before):
@@ -430,18 +477,18 @@ def mk_case(inp):
     status, r = real_call(inst, cfg)
     bad = _observe_runtime(inst, cfg, status, r, before)
     if status == "ok":
-        seen_t = "(Some %s)" % enc(r)
+        seen_t = "(Ok %s)" % enc(r)
         seen_j = {"result": show(r)}
-    elif status == "TypeError":
-        seen_t = "None"
-        seen_j = {"raised": "TypeError"}
+    elif status in EXC_COQ:
+        seen_t = "(Err %s)" % EXC_COQ[status]
+        seen_j = {"raised": status}
     else:
-        seen_t = "(Some VAlien)"
+        seen_t = "(Ok VAlien)"
         seen_j = {"raised": status[6:]}
     if bad:
         # a violated runtime-only observation is reported through the same channel: the case is
         # made to differ from every model answer (VAlien equals nothing) and says why
-        seen_t = "(Some VAlien)"
+        seen_t = "(Ok VAlien)"
         seen_j["runtime_violation"] = [t for _, t in bad]
         _runtime_bad[0] += 1
     _, ft = mk_filter(cfg.get("filter"))
@@ -449,7 +496,7 @@ def mk_case(inp):
     term = "(K CL NT %s %s %s %s %s %s %s %s %s)" % (
         FN_COQ[cfg["fn"]], b(cfg.get("recurse", True)), b(cfg.get("retain", False)), ft,
         DK_COQ[cfg.get("df", "d")], TF_COQ[cfg.get("tf", "t")], st, before, seen_t)
-    sig = {"fn": cfg["fn"], "outcome": status if status in ("ok", "TypeError") else "other"}
+    sig = {"fn": cfg["fn"], "outcome": status if status == "ok" or status in EXC_COQ else "other"}
     if bad:
         sig["kind"] = bad[0][0]
     return Case(term, inp, seen_j, sig=sig, nontrivial=_nontrivial(inp["val"]),
@@ -569,7 +616,126 @@ def gen_cfg(rng):
         cfg["tf"] = rng.choice(["t", "t", "l", "s"])
     if fn in ("asdict", "ng_asdict"):
         cfg["ser"] = rng.choice([None, None, "all", "leaf", "leaf"])
+        if rng.random() < 0.08:
+            cfg["ser"] = gen_fault_ser(rng, cfg["ser"])
+    if rng.random() < 0.06:
+        cfg["filter"] = gen_fault_filter(rng, cfg["filter"])
     return cfg
+
+
+SCALAR_TYPE_NAMES = [NAME_OF_TYPE[t] for t in (int, float, type(None), bytes, str)]
+
+
+def leaf_of_type(rng, tname):
+    t = TYPE_BY_NAME[tname]
+    if t is int:
+        return ["i", rng.randrange(6)]
+    if t is float:
+        return ["f", rng.randrange(3)]
+    if t is type(None):
+        return ["n"]
+    if t is bytes:
+        return ["b", rng.randrange(3)]
+    return ["s", rng.choice(STRS)]
+
+
+def gen_fault_ser(rng, base=None):
+    return ["fail", rng.choice(SCALAR_TYPE_NAMES), rng.choice(sorted(EXCS)), base if base is not None else rng.choice([None, None, "leaf", "all"])]
+
+
+def gen_fault_filter(rng, rest=None):
+    n = rng.randrange(1, 4)
+    return ["raise", [[rng.choice(ALL_NAMES), rng.choice(SCALAR_TYPE_NAMES)] for _ in range(n)],
+            rng.choice(sorted(EXCS)), rest]
+
+
+def wrap_poison(rng, poison, hashable, levels):
+    """Bury a value under `levels` random containers (siblings around it), keeping it reachable by the
+    conversion: list / tuple / tuple subclass / namedtuple / frozenset / set / dict value / member of a
+    key tuple / key / field of a nested instance."""
+    v = poison
+    for _ in range(levels):
+        fill = lambda: gen_leaf(rng)
+        pre = [fill() for _ in range(rng.randrange(3))]
+        post = [fill() for _ in range(rng.randrange(3))]
+        kinds = ["L", "T", "T", "T", "Ts", "N", "DV", "I"]
+        if hashable:
+            kinds += ["F", "S", "DK", "DKT", "DKT"]
+        k = rng.choice(kinds)
+        if k == "L":
+            v, hashable = ["L", pre + [v] + post], False
+        elif k == "T":
+            v = ["T", "t", pre + [v] + post]
+        elif k == "Ts":
+            v = ["T", "s", pre + [v] + post]
+        elif k == "N":
+            v = ["T", 0, [v, fill()] if rng.random() < 0.5 else [fill(), v]]
+        elif k == "F":
+            v = ["F", pre + [v] + post]
+        elif k == "S":
+            v, hashable = ["S", pre + [v] + post], False
+        elif k == "DV":
+            v, hashable = ["D", rng.choice(["d", "o", "s"]), [[fill(), fill()] for _ in pre] + [[fill(), v]] + [[fill(), fill()] for _ in post]], False
+        elif k == "DK":
+            v, hashable = ["D", rng.choice(["d", "o", "s"]), [[v, fill()]] + [[fill(), fill()] for _ in post]], False
+        elif k == "DKT":
+            v, hashable = ["D", rng.choice(["d", "o", "s"]),
+                           [[["T", "t", pre + [v] + post], fill()]] + [[fill(), fill()] for _ in post]], False
+        else:
+            cands = [i for i in range(len(CLASSES)) if FIELDS[i] and (HASHABLE[i] or not hashable)]
+            c = rng.choice(cands)
+            j = rng.randrange(len(FIELDS[c]))
+            v = ["I", c, [v if i == j else fill() for i in range(len(FIELDS[c]))]]
+            hashable = hashable and HASHABLE[c]
+    return v
+
+
+def gen_fault_case(rng, maxdepth):
+    """A value with one poisoned spot at depth >= 1 and a configuration under which converting that spot
+    raises: a leaf the serializer rejects, an instance field the filter rejects, a set/frozenset of
+    instances (unhashable once converted), an instance inside a key."""
+    kind = rng.choice(["ser", "ser", "filter", "filter", "hash", "hash", "key"])
+    cfg = gen_cfg(rng)
+    cfg["recurse"] = rng.random() < 0.93
+    levels = rng.randint(1, maxdepth - 1)
+    if kind == "ser":
+        cfg["fn"] = rng.choice(["asdict", "asdict", "ng_asdict"])
+        for k in ("tf",):
+            cfg.pop(k, None)
+        cfg.setdefault("retain", rng.random() < 0.6)
+        cfg.setdefault("df", rng.choice(["d", "o", "s"]))
+        if cfg["fn"] == "ng_asdict":
+            cfg.pop("retain", None)
+            cfg.pop("df", None)
+        ser = gen_fault_ser(rng)
+        cfg["ser"] = ser
+        poison, h = leaf_of_type(rng, ser[1]), True
+    elif kind == "filter":
+        hc = rng.choice([i for i in range(len(CLASSES)) if FIELDS[i]])
+        j = rng.randrange(len(FIELDS[hc]))
+        tname = rng.choice(SCALAR_TYPE_NAMES)
+        cfg["filter"] = ["raise", [[FIELDS[hc][j], tname]], rng.choice(sorted(EXCS)), cfg.get("filter")]
+        poison = ["I", hc, [leaf_of_type(rng, tname) if i == j else gen_leaf(rng) for i in range(len(FIELDS[hc]))]]
+        h = HASHABLE[hc]
+    elif kind == "hash":
+        hc = rng.choice([i for i in range(len(CLASSES)) if HASHABLE[i]])
+        inst = ["I", hc, [gen_leaf(rng) for _ in FIELDS[hc]]]
+        poison = [rng.choice(["F", "F", "S"]), [gen_leaf(rng) for _ in range(rng.randrange(2))] + [inst]]
+        h = poison[0] == "F"
+    else:
+        hc = rng.choice([i for i in range(len(CLASSES)) if HASHABLE[i]])
+        inst = ["I", hc, [gen_leaf(rng) for _ in FIELDS[hc]]]
+        key = inst if rng.random() < 0.4 else ["T", "t", [gen_leaf(rng), inst]]
+        poison, h = ["D", rng.choice(["d", "o", "s"]), [[key, gen_leaf(rng)]]], False
+    if kind in ("hash", "key") and rng.random() < 0.7:
+        cfg["retain"] = True if cfg["fn"] in ("asdict", "astuple") else cfg.get("retain", False)
+    if cfg["fn"] in ("ng_asdict", "ng_astuple"):
+        cfg.pop("retain", None)
+    body = wrap_poison(rng, poison, h, levels)
+    c = rng.choice([i for i in range(len(CLASSES)) if FIELDS[i]])
+    j = rng.randrange(len(FIELDS[c]))
+    val = ["I", c, [body if i == j else gen_main_val(rng, 1) for i in range(len(FIELDS[c]))]]
+    return {"val": val, "cfg": cfg, "stream": "fault"}
 
 
 I = lambda c, *fs: ["I", c, list(fs)]
@@ -615,7 +781,7 @@ def generate(tier, seed):
     for v in FIXED:
         for cfg in all_cfgs():
             cases.append(mk_case({"val": v, "cfg": cfg}))
-    n_main, n_mal, n_round = (2500, 600, 300) if tier == "quick" else (25000, 6000, 2000)
+    n_main, n_mal, n_round, n_fault = (2500, 600, 300, 1500) if tier == "quick" else (25000, 6000, 2000, 15000)
     maxd = 4 if tier == "quick" else 5
     for _ in range(n_main):
         v = gen_inst(rng, rng.randint(2, maxd))
@@ -625,6 +791,8 @@ def generate(tier, seed):
         v = gen_inst(rng, rng.randint(2, maxd), malformed=True)
         for _ in range(2):
             cases.append(mk_case({"val": v, "cfg": gen_cfg(rng), "stream": "malformed"}))
+    for _ in range(n_fault):
+        cases.append(mk_case(gen_fault_case(rng, maxd)))
     for _ in range(n_round):
         c = rng.randrange(len(CLASSES))
         flat = rng.random() < 0.7
@@ -714,4 +882,8 @@ def distribution(cases):
     return {"functions": dict(fns), "outcomes": dict(outs), "value_depth": dict(sorted(dep.items())),
             "filters": dict(flt), "serializers": dict(ser), "value_features": dict(sorted(fc.items())),
             "malformed_stream": sum(1 for c in cases if c.inp.get("stream") == "malformed"),
+            "fault_stream": sum(1 for c in cases if c.inp.get("stream") == "fault"),
+            "fault_stream_outcomes": dict(Counter(c.sig["outcome"] for c in cases if c.inp.get("stream") == "fault")),
+            "faulty_filter_or_serializer": sum(1 for c in cases if (c.inp["cfg"].get("filter") or [""])[0] == "raise"
+                                               or isinstance(c.inp["cfg"].get("ser"), list)),
             "recurse_false": sum(1 for c in cases if c.inp["cfg"].get("recurse") is False)}
